@@ -147,6 +147,8 @@ impl Property for C07 {
             // the same query a second time in the same process with the same interrupt flag; an engine handed to the
             // executor after the caller has fed it the lines up to the limit itself
             "twice": rng.chance(1, 8),
+            // LIMIT written before WHERE / GROUP BY / HAVING (clauses may come in any order)
+            "limit_first": rng.chance(1, 6),
             "handover": rng.chance(1, 8),
             "api_twice": rng.chance(1, 3),
             // "no limit" written as a very large LIMIT
@@ -175,6 +177,7 @@ impl Property for C07 {
         bool_field(case, "follow", false, &mut out);
         bool_field(case, "noprint", false, &mut out);
         bool_field(case, "twice", false, &mut out);
+        bool_field(case, "limit_first", false, &mut out);
         bool_field(case, "handover", false, &mut out);
         bool_field(case, "api_twice", false, &mut out);
         bool_field(case, "huge_n", false, &mut out);
@@ -278,7 +281,10 @@ impl Property for C07 {
             ns.push(9_223_372_036_854_775_807);
         }
         for n in ns {
-            let lstmt = format!("{} LIMIT {}", stmt, n);
+            let lstmt = match [" WHERE ", " GROUP BY ", " HAVING "].iter().filter_map(|c| stmt.find(c)).min() {
+                Some(at) if jbool(case, "limit_first") => format!("{} LIMIT {}{}", &stmt[..at], n, &stmt[at..]),
+                _ => format!("{} LIMIT {}", stmt, n),
+            };
             let expected: Vec<String> = ref_rows.iter().take(n).map(|(r, _)| r.clone()).collect();
             let l_n: usize = if aggregate {
                 all_lines.len()
@@ -431,6 +437,7 @@ impl Property for C07 {
                 out.probe("engine_handed_over_after_limit", 1);
             }
             out.probe("limit_zero", (n == 0) as u64);
+            out.probe("limit_written_before_other_clauses", (!lstmt.ends_with(&format!(" LIMIT {}", n))) as u64);
             out.probe("limit_hit_at_file_boundary", (!aggregate && n >= 1 && n <= rows && files.len() > 1 && file_boundary(&files, l_n)) as u64);
             out.probe("limit_inside_join_fanout", (!aggregate && n >= 1 && n < rows && ref_rows[n - 1].1 == ref_rows[n].1) as u64);
 
